@@ -309,3 +309,9 @@ def check(run):
     r4_calls(run, F)
     r5_unification(run, F)
     r6_codes(run, F)
+    if run.tier == "thorough":
+        FA = run.facts("A")
+        run.key_prefix = "cfgA:"
+        for fn in (r1_tables, r2_wiring, r3_r5_relations, r4_calls, r5_unification, r6_codes):
+            fn(run, FA)
+        run.key_prefix = ""
